@@ -75,16 +75,35 @@ Definition assign_loop (tiled : bool) (spatial bw : Z) (s : sched) (shape : list
   fold_left (fun st c => assign_step tiled spatial bw s shape st (fst (fst c)) (snd (fst c)) (snd c))
             (rev_columns s) (1, map (fun _ => []) shape).
 
-(* for stride in strides: if not len(stride): stride.append(Stride(current_stride, 1)) *)
-Definition fill_up (st : lstate) : strides_t :=
-  map (fun t => match t with [] => [(Some (fst st), Some 1)] | _ => t end) (snd st).
+(* after the loop (repaired code): cover what the schedule leaves of every dimension
+     for dim, stride in enumerate(strides):
+         existing_bound = prod(s.bound for s in stride if s.bound)
+         size_remaining = shape[dim] // existing_bound
+         if not len(stride) or size_remaining > 1:
+             stride.insert(0, Stride(current_stride, size_remaining))
+             current_stride = current_stride * size_remaining                                  *)
+Definition fill_step (shape : list Z) (st : lstate) (d : nat) : lstate :=
+  let cur := nth d (snd st) [] in
+  let remaining := nth d shape 0 / bounds_prod cur in
+  if (match cur with [] => true | _ => false end) || (remaining >? 1)
+  then (fst st * remaining, upd d ((Some (fst st), Some remaining) :: cur) (snd st))
+  else st.
+Definition fill_up (shape : list Z) (st : lstate) : lstate :=
+  fold_left (fill_step shape) (seq 0 (length shape)) st.
 
 Definition raw_layout (tiled : bool) (spatial bw : Z) (s : sched) (shape : list Z) : layout :=
-  mkLayout (fill_up (assign_loop tiled spatial bw s shape)) (Some 0).
+  mkLayout (snd (fill_up shape (assign_loop tiled spatial bw s shape))) (Some 0).
 
 (* TiledStridedLayout([...]).canonicalize() *)
 Definition assign_layout (tiled : bool) (spatial bw : Z) (s : sched) (shape : list Z) : layout :=
   canonicalize (raw_layout tiled spatial bw s shape).
+
+(* the fill-up BEFORE the repair (kept to state what was wrong):
+     for stride in strides: if not len(stride): stride.append(Stride(current_stride, 1)) *)
+Definition fill_up_old (st : lstate) : strides_t :=
+  map (fun t => match t with [] => [(Some (fst st), Some 1)] | _ => t end) (snd st).
+Definition assign_layout_old (tiled : bool) (spatial bw : Z) (s : sched) (shape : list Z) : layout :=
+  canonicalize (mkLayout (fill_up_old (assign_loop tiled spatial bw s shape)) (Some 0)).
 
 (* ---- the rewrite on a whole dart.schedule --------------------------------------- *)
 (* operand = (shape, bitwidth, explicit TSL layout if any); all operands share the bounds, each has its rows *)
@@ -95,20 +114,5 @@ Record operand := mkOperand { o_shape : list Z; o_bw : Z; o_layout : option layo
 Definition rewrite_schedule (tiled : bool) (spatial : Z) (bounds : list Z) (ops : list operand) : option (list layout) :=
   if existsb (fun o => match o_layout o with Some _ => true | None => false end) ops then None
   else Some (map (fun o => assign_layout tiled spatial (o_bw o) (mkSched bounds (o_rows o)) (o_shape o)) ops).
-
-(* ---- input-side predicates -------------------------------------------------------- *)
-(* product of the schedule bounds of the columns whose first accessed operand dimension is d *)
-Definition dim_iters (s : sched) (d : nat) : Z :=
-  zprod (map (fun c => snd (fst c))
-             (filter (fun c => match first_nz (snd c) with Some d' => Nat.eqb d' d | None => false end) (rev_columns s))).
-
-(* the schedule iterates over every dimension at least as often as the dimension is long
-   (and the dimension is static and non-empty) *)
-Fixpoint covers_from (s : sched) (d : nat) (shape : list Z) : bool :=
-  match shape with
-  | [] => true
-  | n :: r => (0 <? n) && (n <=? dim_iters s d) && covers_from s (S d) r
-  end.
-Definition schedule_covers (s : sched) (shape : list Z) : bool := covers_from s 0 shape.
 
 Definition covers (shape : list Z) (l : layout) : bool := list_eqb Z.eqb (shape_of l) shape.
